@@ -20,7 +20,7 @@ def kyupy_mods():
 
 
 def gen_circuit(rnd, style=None, max_gates=8, max_in=4, max_ff=2, open_pins=True, latches=True,
-                aliases=True, dangling=True, branchforks=None, kinds=None, min_gates=1, max_out=3):
+                aliases=True, dangling=True, branchforks=None, kinds=None, min_gates=1, max_out=3, scrambled=0.3):
     """A random well-formed circuit inside the domain of the simulators.
 
     style 'v': Verilog style (ports are 'input'/'output' cells with a fork behind them, optional branch forks);
@@ -107,7 +107,31 @@ def gen_circuit(rnd, style=None, max_gates=8, max_in=4, max_ff=2, open_pins=True
         else:
             if s not in c.io_nodes and '~' not in s.name:
                 c.io_nodes.append(s)
+    if rnd.random() < scrambled:
+        c = scramble(rnd, c)
     return c
+
+
+def scramble(rnd, c):
+    """The same circuit with nodes and lines created in a random order (ports keep their order): indices, dictionary
+    orders and the relative creation order of drivers and readers change, the netlist does not."""
+    Circuit, Node, Line = kyupy_mods()
+    c2 = Circuit(c.name)
+    order = list(range(len(c.nodes)))
+    rnd.shuffle(order)
+    new = {}
+    for i in order:
+        n = c.nodes[i]
+        new[i] = Node(c2, n.name, n.kind)
+    lines = list(c.lines)
+    rnd.shuffle(lines)
+    # fork outputs must stay gap-free while being built: add the lines of every fork in pin order
+    lines.sort(key=lambda l: (0, 0) if l.driver.kind != '__fork__' else (1, l.driver_pin))
+    for l in lines:
+        Line(c2, (new[l.driver.index], l.driver_pin), (new[l.reader.index], l.reader_pin))
+    for n in c.io_nodes:
+        c2.io_nodes.append(new[n.index])
+    return c2
 
 
 def one_of_each(style='v'):
